@@ -30,6 +30,17 @@ def run_scenarios(ctx, prop, n, steps=60, profile="mixed", scenario_cls=Scenario
                 import traceback
                 fs.append((pid, "monitor raised " + traceback.format_exc()[-500:]))
         if s.crashed: fs.append(("C19", f"harness died at `{s.crashed[0][:100]}`: {str(s.crashed[1])[-800:]}"))
+        # failures recognised by the narrow classifier of a recorded known finding are reported as such, not as violations
+        known = [(p_, x) for p_, x in fs if x.startswith("KNOWN-")]
+        fs = [(p_, x) for p_, x in fs if not x.startswith("KNOWN-")]
+        for p_, x in known:
+            fid = x.split(":")[0][6:]
+            for kf in ctx.kf["findings"]:
+                if kf["id"] == fid and kf["property"] == p_:
+                    if not any(l.split("property=")[1].split()[1].startswith(fid + ":") for l in ctx.known_printed): ctx.known(f"{fid}: {kf['what']} [scenario seed {seed}]")
+                    break
+            else:
+                fs.append((p_, "unlisted " + x))
         if fs:
             fails.append((seed, steps, s, fs))
             if len(fails) >= 5: break
